@@ -93,11 +93,13 @@ func c10Variants() (vs []string) {
 type c10Params struct {
 	via, method, user, variant string
 	issue, delay               time.Duration
+	gap                        time.Duration // > 0: the same source had fetched an earlier token, gap before the one at "issue"+gap
 }
 
 func (p c10Params) Case() explore.Case {
 	return explore.Case{Prop: "C10", Unit: "via=" + p.via + ";method=" + p.method,
-		H: []string{"issue=" + strconv.FormatInt(int64(p.issue), 10), "delay=" + strconv.FormatInt(int64(p.delay), 10), "user=" + p.user, "variant=" + p.variant}}
+		H: append([]string{"issue=" + strconv.FormatInt(int64(p.issue), 10), "delay=" + strconv.FormatInt(int64(p.delay), 10), "user=" + p.user, "variant=" + p.variant},
+			map[bool][]string{true: {"gap=" + strconv.FormatInt(int64(p.gap), 10)}, false: nil}[p.gap > 0]...)}
 }
 
 func parseC10(c explore.Case) (p c10Params) {
@@ -117,6 +119,10 @@ func parseC10(c explore.Case) (p c10Params) {
 		if v, ok := strings.CutPrefix(h, "delay="); ok {
 			n, _ := strconv.ParseInt(v, 10, 64)
 			p.delay = time.Duration(n)
+		}
+		if v, ok := strings.CutPrefix(h, "gap="); ok {
+			n, _ := strconv.ParseInt(v, 10, 64)
+			p.gap = time.Duration(n)
 		}
 		if v, ok := strings.CutPrefix(h, "user="); ok {
 			p.user = v
@@ -190,6 +196,12 @@ func runC10(t *testing.T, c explore.Case) (res explore.Result) {
 		y2 := NewSys(WithPeerStore())
 		defer y2.Close()
 		time.Sleep(p.issue)
+		tok0 := ""
+		if p.gap > 0 {
+			// an earlier token for the same source; "first" uses it, "exact" the later one
+			tok0 = y.fetchToken(issuer, p.via)
+			time.Sleep(p.gap)
+		}
 		tok := y.fetchToken(issuer, p.via)
 		if len(tok) == 0 {
 			res.Viol = "no-token: server handed out no token in its " + p.via + " reply"
@@ -201,6 +213,14 @@ func runC10(t *testing.T, c explore.Case) (res explore.Result) {
 		time.Sleep(p.delay)
 		res.Steps = 2
 		use, present := c10Mutate(tok, p.variant, foreign, otherip)
+		age := p.delay // age of the token that is used
+		if p.variant == "first" {
+			use, present, age = tok0, true, p.delay+p.gap
+			if tok0 == "" {
+				res.Viol = "no-token: server handed out no token in its first " + p.via + " reply"
+				return
+			}
+		}
 		a := sim.M{"id": sim.IDStr(peerID)}
 		if present {
 			a["token"] = use
@@ -246,10 +266,13 @@ func runC10(t *testing.T, c explore.Case) (res explore.Result) {
 		replied := len(ws) > 0
 		// classification
 		sameIP := user.IP.Equal(issuer.IP)
-		exact := p.variant == "exact"
-		mustAccept := exact && sameIP && p.delay <= 10*time.Minute
-		mustReject := !exact || !sameIP || p.delay > 15*time.Minute
+		exact := p.variant == "exact" || p.variant == "first"
+		mustAccept := exact && sameIP && age <= 10*time.Minute
+		mustReject := !exact || !sameIP || age > 15*time.Minute
 		desc := fmt.Sprintf("%s via %s: token %s, issued at +%v, used %v later by %s", p.method, p.via, p.variant, p.issue, p.delay, p.user)
+		if p.gap > 0 {
+			desc = fmt.Sprintf("%s via %s: two tokens issued to one source at +%v and %v later; the %s one is used %v after the second issue (%v after its own) by %s", p.method, p.via, p.issue, p.gap, map[bool]string{true: "first", false: "second"}[p.variant == "first"], p.delay, age, p.user)
+		}
 		incomplete := p.method == "putnoseq" || p.method == "annnoport"
 		switch {
 		case incomplete && mustReject && (replied || effect):
@@ -289,7 +312,7 @@ func init() { runners["C10"] = runC10 }
 func TestC10(t *testing.T) {
 	w := explore.NewWorker("C10")
 	defer w.Finish()
-	w.SetRule("time grid: 6 issue offsets within the 5-minute rotation x 20 use delays around the 10 and 15 minute bounds (to the nanosecond) x users {same address, same IP other port, v4-mapped form} x {announce_peer, immutable put, mutable put} x token obtained by {get_peers, get}, exact token; token mutations: 160 single-bit flips, 20 truncations, 2 extensions, empty, absent, token of a second server, token issued to another IP; foreign users (other IPv4, IPv6) with the exact token; recording peer store / BEP 44 store / announce callback observe effects; oracle demands acceptance up to 10 min, rejection beyond 15 min and for every non-exact or foreign-IP token, and reply <=> effect")
+	w.SetRule("time grid: 6 issue offsets within the 5-minute rotation x 20 use delays around the 10 and 15 minute bounds (to the nanosecond) x users {same address, same IP other port, v4-mapped form} x {announce_peer, immutable put, mutable put} x token obtained by {get_peers, get}, exact token; two tokens issued to one source 1 s .. 6 min apart (3 offsets x 4 gaps x 20 delays, either token used); token mutations: 160 single-bit flips, 20 truncations, 2 extensions, empty, absent, token of a second server, token issued to another IP; foreign users (other IPv4, IPv6) with the exact token; recording peer store / BEP 44 store / announce callback observe effects; oracle demands acceptance up to 10 min, rejection beyond 15 min and for every non-exact or foreign-IP token, and reply <=> effect")
 	idx := 0
 	run := func(p c10Params) {
 		c := p.Case()
@@ -310,10 +333,29 @@ func TestC10(t *testing.T) {
 				w.BeginUnit(u, fmt.Sprintf("grid via=%s method=%s issue=%v", via, method, is))
 				for _, d := range c10Delays() {
 					for _, user := range []string{"v4", "v4b", "mapped"} {
-						run(c10Params{via, method, user, "exact", is, d})
+						run(c10Params{via, method, user, "exact", is, d, 0})
 					}
 				}
 				w.Flush(false)
+			}
+			// two tokens for one source: a re-issue across a rotation boundary must not shorten the life
+			// of either token
+			if method != "putm" {
+				u := idx
+				idx++
+				if w.Mine(u) {
+					w.BeginUnit(u, fmt.Sprintf("reissue via=%s method=%s", via, method))
+					for _, is := range []time.Duration{time.Second, 4 * time.Minute, 299 * time.Second} {
+						for _, gap := range []time.Duration{time.Second, 2 * time.Minute, 5*time.Minute - 1, 6 * time.Minute} {
+							for _, d := range c10Delays() {
+								for _, v := range []string{"exact", "first"} {
+									run(c10Params{via: via, method: method, user: "v4", variant: v, issue: is, delay: d, gap: gap})
+								}
+							}
+						}
+					}
+					w.Flush(false)
+				}
 			}
 			// mutations and foreign users
 			if method == "put" {
@@ -323,9 +365,9 @@ func TestC10(t *testing.T) {
 					w.BeginUnit(u, "incomplete writes via="+via)
 					for _, m2 := range []string{"putnoseq", "annnoport"} {
 						for _, v := range []string{"exact", "empty", "absent", "flip0", "flip159", "trunc19", "foreign", "otherip"} {
-							run(c10Params{via, m2, "v4", v, time.Second, time.Second})
+							run(c10Params{via, m2, "v4", v, time.Second, time.Second, 0})
 						}
-						run(c10Params{via, m2, "v4", "exact", time.Second, 16 * time.Minute})
+						run(c10Params{via, m2, "v4", "exact", time.Second, 16 * time.Minute, 0})
 					}
 					w.Flush(false)
 				}
@@ -335,11 +377,11 @@ func TestC10(t *testing.T) {
 			if w.Mine(u) {
 				w.BeginUnit(u, fmt.Sprintf("mutations via=%s method=%s", via, method))
 				for _, v := range c10Variants() {
-					run(c10Params{via, method, "v4", v, time.Second, time.Second})
+					run(c10Params{via, method, "v4", v, time.Second, time.Second, 0})
 				}
 				for _, user := range []string{"other", "v6"} {
 					for _, d := range []time.Duration{0, time.Second, 6 * time.Minute} {
-						run(c10Params{via, method, user, "exact", time.Second, d})
+						run(c10Params{via, method, user, "exact", time.Second, d, 0})
 					}
 				}
 				w.Flush(false)
